@@ -1279,7 +1279,7 @@ def textpair(repo, templates, facts=None):
         raise AnalysisError(f"template {name} vanished")
     text = templates.templates[name]["text"]
     res.instances += 1
-    um = re.search(r"UpdateFromTextStream\s*\([^)]*\)\s*\{(.*?)\n    \}", text, re.S)
+    um = re.search(r"UpdateFromTextStream\s*\([^)]*\)\s*(?:const\s*)?\{(.*?)\n    \}", text, re.S)
     if not um:
         raise AnalysisError(f"{name}: UpdateFromTextStream not found")
     hard = re.findall(r"\bRead\w+FromTextStream\b", um.group(1))
@@ -1692,7 +1692,7 @@ def virtnarrow(repo):
     ot = re.sub(r"/\*\*/", "", ot)
     # split into member functions: `template <...> <ret> Name(<one parameter>) {body}`
     meths = {}
-    for mm in re.finditer(r"template\s*<((?:[^<>]|<(?:[^<>]|<(?:[^<>]|<[^<>]*>)*>)*>)*)>\s*(?:static\s+constexpr\s+)?(bool|void)\s+(\w+)\s*\(\s*(\w+)\s+(\w+)\s*\)\s*\{", ot):
+    for mm in re.finditer(r"template\s*<((?:[^<>]|<(?:[^<>]|<(?:[^<>]|<[^<>]*>)*>)*>)*)>\s*(?:static\s+constexpr\s+)?(bool|void)\s+(\w+)\s*\(\s*(\w+)\s+(\w+)\s*\)\s*(?:const\s*)?\{", ot):
         start = mm.end()
         depth, i = 1, start
         while i < len(ot) and depth:
@@ -1837,4 +1837,47 @@ def includename(repo):
         res.add(f"{hg.rel}|generate_header|unwritable-include", "no check reached from generate_header rejects an imported file name that "
                 "contains a double quote: `import \"q\\\"x.emb\"` yields `#include \"q\"x.emb.h\"`", hg.rel, 0, "generate_header")
     res.analysed = [hg.rel]
+    return res
+
+
+def constwrite(repo, facts=None):
+    """R-CONSTWRITE (C07/C06): siblings agree on the interface.  The scalar views of the runtime (UIntView, IntView,
+    FlagView ...) declare TryToWrite, Write, UncheckedWrite, CouldWriteValue and UpdateFromTextStream `const` -- a view
+    is a handle, writing goes to the buffer -- and the C++ reference documents them that way; `::emboss::UpdateFromText`
+    takes its view by const reference.  The view class generated for a write-through virtual field must declare the same
+    methods const, otherwise `UpdateFromText(v.y(), "17")` and `const auto f = v.y(); f.Write(1);` compile for physical
+    fields and not for virtual ones.  The obligation is read from UIntView; if a runtime method there is not const, it is
+    not demanded of the template."""
+    res = RuleResult("R-CONSTWRITE")
+    prelude = re.sub(r"//[^\n]*", "", repo.read("runtime/cpp/emboss_prelude.h"))
+    m = re.search(r"\bclass\s+UIntView\s+final\s*\{", prelude)
+    if not m:
+        raise AnalysisError("emboss_prelude.h: class UIntView not found")
+    depth, i = 1, m.end()
+    while i < len(prelude) and depth:
+        depth += {"{": 1, "}": -1}.get(prelude[i], 0)
+        i += 1
+    uint = prelude[m.end():i]
+    wanted = [meth for meth in ("TryToWrite", "Write", "UncheckedWrite", "CouldWriteValue", "UpdateFromTextStream")
+              if re.search(r"\b" + meth + r"\s*\([^)]*\)\s*const\b", uint)
+              or re.search(r"\bstatic\s+(?:constexpr\s+)?\w+\s+" + meth + r"\s*\(", uint)]   # static: callable on a const view too
+    if len(wanted) < 3:
+        raise AnalysisError(f"UIntView: only {wanted} are const methods")
+    tp = Templates(repo)
+    for tname in ("structure_single_virtual_field_write_methods", "structure_single_virtual_field_integer_write_overloads"):
+        if tname not in tp:
+            if tname.endswith("write_methods"):
+                raise AnalysisError(f"template {tname} vanished")
+            continue
+        text = re.sub(r"//[^\n]*", "", tp[tname]["text"])
+        for meth in wanted:
+            for mm in re.finditer(r"\b(?:bool|void)\s+" + meth + r"\s*\(([^)]*)\)\s*(const\b)?\s*\{", text):
+                res.instances += 1
+                if not mm.group(2):
+                    res.add(f"{TEMPLATES}|{tname}|{meth}|non-const", f"{tname}: `{meth}({' '.join(mm.group(1).split())[:40]})` is not const, "
+                            f"UIntView::{meth} is: code that writes through a const view or `::emboss::UpdateFromText(view.field(), ...)` "
+                            "compiles for physical fields and not for write-through virtual fields", TEMPLATES, tp[tname]["line"], tname)
+    if res.instances < 5:
+        raise AnalysisError(f"only {res.instances} write methods recognised in the virtual-field templates")
+    res.analysed = [TEMPLATES, "runtime/cpp/emboss_prelude.h"]
     return res
